@@ -15,8 +15,8 @@
 (***************************************************************************)
 EXTENDS TraceBase, TLC, Json, IOUtils
 
-VARIABLES tid, l, pre, post, reqs, v
-tvars == <<tid, l, pre, post, reqs, v>>
+VARIABLES tid, l, pre, post, reqs, hk, v
+tvars == <<tid, l, pre, post, reqs, hk, v>>
 
 TraceLog_ == ndJsonDeserialize(IOEnv.TRACE_FILE)
 N == Len(TraceLog_)
@@ -41,7 +41,7 @@ SameBag(a, b) == AsBag(a) = AsBag(b)
 CallKey(e) == <<e.ev, e.typ, e.before, e.t, IF e.typ = "session" THEN e.s ELSE e.m>>
 IsPre(e) == e.before \/ (e.typ = "session")          \* after-session hooks run before the session-end record
 
-Init == /\ tid \in 1..N /\ l = 1 /\ pre = <<>> /\ post = <<>> /\ reqs = <<>>
+Init == /\ tid \in 1..N /\ l = 1 /\ pre = <<>> /\ post = <<>> /\ reqs = <<>> /\ hk = 0
         /\ v = [C13 |-> "ok"]
 
 \* an occurrence: all after-calls owed by the previous one are in; its before-calls are exactly the expected
@@ -55,14 +55,19 @@ ReqOf(obj) == LET i == FirstIdx(reqs, LAMBDA r : r[1] = obj) IN IF i = 0 THEN -1
 
 Step ==
   /\ l <= Len(Ev) /\ l' = l + 1 /\ tid' = tid
-  /\ LET e == Ev[l] IN
+  /\ hk' = IF Ev[l].k = "hook" THEN hk + 1 ELSE hk
+  /\ LET e == Ev[l]
+         \* the same configuration and seed run WITHOUT a logger (Hd.twin): the k-th invocation is the same invocation
+         twinBad == Hd.twin /\ (hk + 1 > Len(Hd.nolog) \/ Hd.nolog[hk + 1] # CallKey(e)) IN
      CASE e.k = "hook" ->
             IF IsPre(e)
             THEN /\ pre' = Append(pre, CallKey(e)) /\ UNCHANGED <<post, reqs>>
-                 /\ v' = [v EXCEPT !.C13 = F(@, e.typ \in {"order", "cancel"} /\ e.placed, "C13:before-hook-after-effect")]
+                 /\ v' = [v EXCEPT !.C13 = F(F(@, e.typ \in {"order", "cancel"} /\ e.placed, "C13:before-hook-after-effect"),
+                                              twinBad, "C13:hook-calls-differ-without-logger")]
             ELSE LET i == FirstIdx(post, LAMBDA x : x = CallKey(e)) IN
                  /\ post' = IF i = 0 THEN post ELSE RemoveAt(post, i)
-                 /\ v' = [v EXCEPT !.C13 = F(@, i = 0, "C13:extra-or-wrong-after-" \o e.typ)]
+                 /\ v' = [v EXCEPT !.C13 = F(F(@, i = 0, "C13:extra-or-wrong-after-" \o e.typ),
+                                              twinBad, "C13:hook-calls-differ-without-logger")]
                  /\ UNCHANGED <<pre, reqs>>
        [] e.k = "ret" ->
             /\ reqs' = reqs \o [k \in 1..Len(SelectSeq(e.batch, LAMBDA b : b[1] = "o")) |->
@@ -86,7 +91,7 @@ Step ==
        [] e.k = "round" ->
             /\ v' = Occ(v, <<>>, "round")
             /\ pre' = <<>>
-            /\ post' = FoldLeft(LAMBDA acc, f : acc \o Calls(Expected("execution", FALSE, f[7], f[8], FALSE), "execution", FALSE, f[7], f[8]),
+            /\ post' = FoldLeft(LAMBDA acc, f : acc \o Calls(Expected("execution", FALSE, e.t, e.m, FALSE), "execution", FALSE, e.t, e.m),
                                 <<>>, e.fills)
             /\ UNCHANGED reqs
        [] e.k = "sessB" ->
@@ -105,7 +110,9 @@ Step ==
             /\ post' = Calls(Expected("market", FALSE, e.t, e.m, TRUE), "market", FALSE, e.t, e.m)
             /\ UNCHANGED reqs
        [] e.k = "simE" ->
-            /\ v' = Occ(v, <<>>, "simulation-end") /\ UNCHANGED <<pre, post, reqs>>
+            /\ v' = [Occ(v, <<>>, "simulation-end") EXCEPT
+                       !.C13 = F(@, Hd.twin /\ hk # Len(Hd.nolog), "C13:more-hook-calls-without-logger")]
+            /\ UNCHANGED <<pre, post, reqs>>
        [] e.k = "abort" ->
             /\ v' = [v EXCEPT !.C13 = F(@, e.phase = "hooks", "C13:run-aborted-in-" \o e.phase \o "-" \o e.exc)]
             /\ UNCHANGED <<pre, post, reqs>>
